@@ -16,6 +16,8 @@
                       `fcNet_three`, `fcNet_activation_order_matters`, `fastLinear_ne_plain_unshared` (the precondition is needed)
   * coded backward:   `vjp_input`, `vjp_weight`, `vjp_bias` (exact vector-Jacobian products of the affine layer),
                       `gradWeight_eq_plain`, `gradInput_adjoint` (second order)
+  * histories:        `Hist.fb_holds`, `Hist.fb_frame`, `Hist.fb_draws`, `Hist.fb_shares_functions`, `Hist.history_last_fb`,
+                      `Hist.stepOld_stale`, `Hist.stepOld_second_model_empty` (negative results about the pinned snapshot)
   Non-vacuity examples (concrete data meeting the hypotheses) are collected at the end of the file.
 -/
 import TPV.Model.DeepONet
@@ -1038,5 +1040,111 @@ example : dot3 D0 (gradInput 2 L1.W g0) = dot3 g0 (layerOut ⟨L1.W, none⟩ D0)
   ⟨gradInput_adjoint 2 L1.W (by decide) D0 g0, by decide⟩
 
 end Examples
+
+/-! ## histories: the stored branch output always belongs to the functions that are asked for -/
+
+namespace Hist
+
+
+theorem upd_same {α : Type} (f : Nat → α) (i : Nat) (v : α) : upd f i v i = v := by simp [upd]
+theorem upd_other {α : Type} (f : Nat → α) (i j : Nat) (v : α) (h : j ≠ i) : upd f i v j = f j := by simp [upd, h]
+
+/-- **after `_forward_branch(set s, iteration k)` the branch output stored in model `m` belongs to the
+    CURRENT parameter batch of set `s`** — whatever the model held before (another set, a fixed input, the
+    output of another iteration) and whoever sampled the set in this iteration. -/
+theorem fb_holds (σ σ' : St) (m s : Nat) (k : Int) (h : step σ (.fb m s k) = some σ') :
+    σ'.holds m = .set s (σ'.draws s) ∧ σ'.iter s = k ∧ 0 < σ'.draws s := by
+  simp only [step] at h
+  by_cases hk : k ≠ σ.iter s
+  · simp only [hk, if_true, ne_eq, not_false_eq_true, Option.some.injEq] at h
+    subst h
+    simp [upd_same]
+  · by_cases hd : σ.draws s = 0
+    · simp [hk, hd] at h
+    · simp only [hk, if_false, hd, Option.some.injEq] at h
+      subst h
+      refine ⟨by simp [upd_same], (Decidable.of_not_not hk).symm, Nat.pos_of_ne_zero hd⟩
+
+/-- nothing else changes: other models keep their branch output, other sets their iteration and batches -/
+theorem fb_frame (σ σ' : St) (m s : Nat) (k : Int) (h : step σ (.fb m s k) = some σ') :
+    (∀ m', m' ≠ m → σ'.holds m' = σ.holds m') ∧ (∀ s', s' ≠ s → σ'.iter s' = σ.iter s' ∧ σ'.draws s' = σ.draws s') := by
+  simp only [step] at h
+  by_cases hk : k ≠ σ.iter s
+  · simp only [hk, if_true, ne_eq, not_false_eq_true, Option.some.injEq] at h
+    subst h
+    exact ⟨fun m' hm => upd_other _ _ _ _ hm, fun s' hs => ⟨upd_other _ _ _ _ hs, upd_other _ _ _ _ hs⟩⟩
+  · by_cases hd : σ.draws s = 0
+    · simp [hk, hd] at h
+    · simp only [hk, if_false, hd, Option.some.injEq] at h
+      subst h
+      exact ⟨fun m' hm => upd_other _ _ _ _ hm, fun _ _ => ⟨rfl, rfl⟩⟩
+
+/-- a new iteration number draws new functions, the same iteration number re-uses them -/
+theorem fb_draws (σ σ' : St) (m s : Nat) (k : Int) (h : step σ (.fb m s k) = some σ') :
+    σ'.draws s = if k ≠ σ.iter s then σ.draws s + 1 else σ.draws s := by
+  simp only [step] at h
+  by_cases hk : k ≠ σ.iter s
+  · simp only [hk, if_true, ne_eq, not_false_eq_true, Option.some.injEq] at h
+    subst h
+    simp [upd_same, hk]
+  · by_cases hd : σ.draws s = 0
+    · simp [hk, hd] at h
+    · simp only [hk, if_false, hd, Option.some.injEq] at h
+      subst h
+      simp [hk]
+
+/-- within one iteration the functions are shared: a second model (or the same model again, after
+    anything else happened to it) that uses set `s` in the iteration in which it was already sampled gets
+    the branch output of exactly the batch the first one used -/
+theorem fb_shares_functions (σ σ1 σ2 : St) (m1 m2 s : Nat) (k : Int)
+    (h1 : step σ (.fb m1 s k) = some σ1) (h2 : step σ1 (.fb m2 s k) = some σ2) :
+    σ2.draws s = σ1.draws s ∧ σ2.holds m2 = .set s (σ1.draws s) := by
+  have a := fb_holds σ σ1 m1 s k h1
+  have b := fb_holds σ1 σ2 m2 s k h2
+  have c := fb_draws σ1 σ2 m2 s k h2
+  have hk : ¬ (k ≠ σ1.iter s) := by simp [a.2.1]
+  rw [if_neg hk] at c
+  exact ⟨c, by rw [b.1, c]⟩
+
+theorem run_append (stp : St → Op → Option St) : ∀ (h : List Op) (σ : St) (o : Op),
+    run stp σ (h ++ [o]) = (run stp σ h).bind (fun σ' => stp σ' o)
+  | [], σ, o => by
+    simp only [List.nil_append, run, Option.bind_some]
+    cases stp σ o <;> rfl
+  | a :: h, σ, o => by
+    simp only [List.cons_append, run]
+    cases stp σ a with
+    | none => rfl
+    | some σ' => exact run_append stp h σ' o
+
+/-- for EVERY history: if it ends with `_forward_branch(set s, k)` on model `m`, the model then holds the
+    branch output of the current batch of set `s` -/
+theorem history_last_fb (h : List Op) (σ σ' : St) (m s : Nat) (k : Int)
+    (hr : run step σ (h ++ [.fb m s k]) = some σ') : σ'.holds m = .set s (σ'.draws s) := by
+  rw [run_append] at hr
+  cases hq : run step σ h with
+  | none => simp [hq] at hr
+  | some σ1 =>
+    rw [hq] at hr
+    exact (fb_holds σ1 σ' m s k hr).1
+
+/-- NEGATIVE, pinned snapshot: condition on set 0, condition on set 1, condition on set 0 again in the same
+    iteration — the model answers the third call with the functions of set 1 -/
+theorem stepOld_stale :
+    (run stepOld init [.fb 0 0 0, .fb 0 1 0, .fb 0 0 0]).map (fun σ => σ.holds 0) = some (.set 1 1) := by
+  decide
+
+/-- NEGATIVE, pinned snapshot: a second model sharing the function set never evaluates its branch net -/
+theorem stepOld_second_model_empty :
+    (run stepOld init [.fb 0 0 0, .fb 1 0 0]).map (fun σ => σ.holds 1) = some .empty := by
+  decide
+
+/-- the repaired code on the same histories -/
+example : (run step init [.fb 0 0 0, .fb 0 1 0, .fb 0 0 0]).map (fun σ => (σ.holds 0, σ.draws 0)) = some (.set 0 1, 1) ∧
+    (run step init [.fb 0 0 0, .fb 1 0 0]).map (fun σ => (σ.holds 1, σ.draws 0)) = some (.set 0 1, 1) ∧
+    (run step init [.fb 0 0 0, .fix 0 7, .fb 0 0 0, .fb 0 0 1]).map (fun σ => (σ.holds 0, σ.draws 0)) = some (.set 0 2, 2) := by
+  decide
+
+end Hist
 
 end TPV.DeepONet
